@@ -11,6 +11,7 @@ utf-8 decoding (as in Model/CimValue.lean).
 comparison with 'true' / 'false' is unaffected; K exercises such characters.
 -/
 import Pywbem.Model.CimValue
+import Pywbem.Generated.Config
 
 namespace Pywbem.Model.AtomicXml
 open Pywbem.Proto Pywbem.Model.CimTypes Pywbem.Model.DateTime Pywbem.Model.CimValue
@@ -102,5 +103,45 @@ def wireTyOf : Sc → Option WireTy
   | .real64 _ => some (.num .real64)
   | .cimDT _ => some .datetime
   | _ => none
+
+/-! ## the module-level functions tocimxml(value) / tocimxmlstr(value) for CIM data types and arrays of them
+    (also the path array-valued IPARAMVALUEs take) -/
+
+/-- the VALUE-level elements tocimxml() produces for data values -/
+inductive ValXml where
+  | value (txt : Option (List Char))        -- <VALUE>txt</VALUE>
+  | valueNull                               -- <VALUE.NULL/>
+  | valueArray (items : List ValXml)        -- <VALUE.ARRAY>…</VALUE.ARRAY>
+  | object                                  -- value.tocimxml() of a CIM object (not part of this model)
+  deriving Repr
+
+def hasTocimxml : Sc → Bool
+  | .instName _ | .className | .instance _ | .cimClass => true
+  | _ => false
+
+/-- one array item: `if v is None: VALUE.NULL (SEND_VALUE_NULL) / VALUE(None) else VALUE(atomic_to_cim_xml(v))` -/
+def tocimxmlItem (fmt17 fmt11 : Nat → List Char) (utf8 : List Nat → Option (List Char)) (sendNull : Bool) (v : Sc) :
+    Except PyExc ValXml :=
+  match v with
+  | .none => .ok (if sendNull then .valueNull else .value none)
+  | v => (atomicToCimXml fmt17 fmt11 utf8 v).map ValXml.value
+
+/-- mirrors _cim_obj.py: the module-level tocimxml(value) (lists and tuples are arrays; `isTuple` only records which) -/
+def tocimxmlFn (fmt17 fmt11 : Nat → List Char) (utf8 : List Nat → Option (List Char)) (sendNull : Bool) :
+    Val → Except PyExc ValXml
+  | .sc .none => .error .valueError                      -- "The value parameter must not be None"
+  | .list l => (l.mapM (tocimxmlItem fmt17 fmt11 utf8 sendNull)).map ValXml.valueArray
+  | .sc s => if hasTocimxml s then .ok .object else (atomicToCimXml fmt17 fmt11 utf8 s).map ValXml.value
+
+/-- with the configuration of the repo (pywbem/config.py: SEND_VALUE_NULL) -/
+def tocimxmlCfg (fmt17 fmt11 : Nat → List Char) (utf8 : List Nat → Option (List Char)) : Val → Except PyExc ValXml :=
+  tocimxmlFn fmt17 fmt11 utf8 Pywbem.Generated.sendValueNull
+
+/-- the way back for one item of a VALUE.ARRAY of the given TYPE (unpack_value → unpack_single_value; VALUE.NULL → None) -/
+def unpackItem (pf : List Char → Option Nat) (t : WireTy) : ValXml → Except PyExc Sc
+  | .value (some txt) => unpackSingleValue (pf txt) (some txt) t
+  | .value none => unpackSingleValue none (some []) t     -- an empty VALUE element has text ''
+  | .valueNull => .ok .none
+  | _ => .error .cimXmlParseError
 
 end Pywbem.Model.AtomicXml
